@@ -8,6 +8,11 @@ ids = [p["id"] for p in props]
 LANE_TECH = 'TLA+ (DQState.tla + Lane.tla, one action per atomic access) model-checked with TLC; bound to the code by (1) exhaustive function-level conformance of the real inline dq_state functions against the DQState operators, (2) word-level trace validation of every recorded dq_state access of hooked real executions, (3) the property evaluated on the recorded API order'
 LANE_NOTE = "Bounds: TLC explores 2 clients x 2 pool workers with 3-4 items per configuration (thorough: 4-item programs, ~1e6 states each); the root queue is a fair bag; real executions are seeded samples of schedules (perturbation injected inside the library's atomicity windows), not all of them; function-level conformance is exhaustive over the abstract dq_state domain for widths 1-3."
 CHECKS = {
+ "C12": dict(technique="TLA+ spec (Time.tla, TimeMC.tla, TimeEmit.tla) parametric in word width: TLC exhaustive at W=8, Apalache/Z3 on the same invariants at W=64; bound to the code by replaying TLC-emitted vectors (landmark-lifted to 64 bits) and Apalache witnesses on the real functions with clock_gettime interposed, plus the spec's reference evaluated as oracle on seeded random 64-bit inputs (the C oracle is compared row by row with TLC's exhaustive W=8 table on every run)",
+   text="Time.tla transcribes dispatch_time, dispatch_walltime, _dispatch_timeout and the encode/decode helpers with explicit two's-complement wrap and, separately, the reference meaning the property states (same clock; exact shift, or FOREVER beyond the future, or an elapsed time on the same clock before the past; monotone; FOREVER absorbing; past implies zero timeout). TLC at W=8 enumerates every (base, delta) pair x 4 now values and every tv_sec x delta x several tv_nsec: the repaired algorithm meets the reference; the pinned tree's five defect classes (repaired by three fix: commits) are kept as switchable deviations shown violating; spec mutants are refuted. Apalache discharges the same invariants at W=64. 11340 lifted rows plus witnesses are replayed on the real code and >= 2.2e6 seeded random calls are judged by the reference.",
+   note="Exhaustive at W=8; full domain at W=64 for the spec's transcription only (SMT); the real code is sampled apart from the lifted rows and witnesses. Assumes each clock reads a value in [1, 2^62-1]; x86-64 Linux where nano<->mach is the identity; signed overflow observed as wrap. An Apalache run that times out is recorded as stalled and never produces a verdict.",
+   design_ref="7/C12"),
+
  "C18": dict(technique="TLA+ specs Attr.tla / AttrGlobal.tla / Frames.tla (implementation-shaped transcriptions compared by TLC with separately stated reference meanings) model-checked with TLC; bound to the code by spec-generated test vectors replayed on the real functions: the complete constructor transition relation and creation reports for every attribute-table entry, every identifier/flag of dispatch_get_global_queue, and one case per hierarchy shape x key placement x submission path with dispatch_get_specific compared and dispatch_assert_queue(_not) judged in children forked inside the running item",
    text="TLC checks the attribute index<->fields bijection, last-writer-wins / order independence over the whole constructor lattice and faithful reporting of label, clamped QoS class, relative priority, width and inactivity for every attribute; the documented identifier->class->queue mapping over -32768..64 plus wide identifiers x 8 flag values; nearest-value lookup and exact assert acceptance on all submission paths for depth <= 3 hierarchies with nested submission; 6 (quick) / 10 (thorough) spec mutants refuted; the pinned tree's two global-queue defects (repaired by fix: commits) are kept as switchable deviations that TLC shows violating.",
    note="The real side is exhaustive for the attribute table (4032 entries in this build, radices read from the build) and for the global-queue domain, and seeded-sampled for Frames in the quick tier. Fast/slow path steering is best effort; expectations do not depend on the path (a TLC invariant). Main queue, workloops, pthread root queues and dispatch_assert_queue_barrier are not covered. A hang is reported as BROKEN, not VIOLATION, because C18 states no progress property.",
